@@ -426,8 +426,12 @@ pub fn run(ctx: &Ctx) -> CheckOutput {
         }));
     }
     // scale families: long run (N = 5, 66 000 updates) and wide window (N = 300; 260 for NET)
-    for (label, n, len) in [("long run", 5usize, 66_000usize), ("wide window", 300, 1_300)] {
+    // (a window of 2000: a product or a power taken over the whole window leaves the exponent range)
+    for (label, n, len) in [("long run", 5usize, 66_000usize), ("wide window", 300, 1_300), ("very wide window", 2_000, 4_100)] {
         for spec in specs(n) {
+            if n > 1_000 && matches!(spec.kind, Kind::Net | Kind::Pfe) {
+                continue; // O(N^2) per update / range already a known finding
+            }
             let spec = if spec.kind == Kind::Net && n > 260 { Spec { n: 260, ..spec } } else { spec };
             jobs.push(Box::new(move || {
                 let mut st = Stats::default();
